@@ -544,6 +544,32 @@ def run(ck, facts):
     if not found:
         ck.bad("R7", "macro::gen_custom_type_method/flush-filter", "anchor `let write_flushes = …filter(..)` not found", C.loc(g))
 
+    # --- R7 (cont.) a write parameter is recognised under both spellings the runtime types are accepted in (`DiplomatWrite` and `diplomat_runtime::DiplomatWrite`): in the chain
+    #     of path tests of TypeName::from_syn that uses is_runtime_type, no runtime type name is compared with a single path segment directly (a parameter spelled with the
+    #     crate path would become a named type: no flush after the call, the fixed writer's terminator is never stored)
+    fs_ = facts.core.fn("ast::types::TypeName::from_syn")
+    nchain, direct = 0, []
+    for b_ in C.bodies_inl(facts.core, C.fn_body(fs_), depth=1, exclude=[fs_["path"]]):
+        for n in C.walk(b_):
+            if n.get("k") != "if":
+                continue
+            conds, cur = [], n
+            while isinstance(cur, dict) and cur.get("k") == "if":
+                conds.append(cur["c"])
+                cur = C.strip(cur.get("e")) if cur.get("e") is not None else None
+            if not any((C.callee(x) or "").endswith("is_runtime_type") for c_ in conds for x in C.calls_in(c_)):
+                continue
+            nchain += 1
+            for c_ in conds:
+                for x in C.walk(c_):
+                    if x.get("k") == "bin" and x.get("op") == "Eq":
+                        for sd in (C.strip(x["l"]), C.strip(x["r"])):
+                            if sd.get("k") == "lit" and str(sd.get("v", "")).startswith("Diplomat") and str(sd["v"]) not in direct:
+                                direct.append(str(sd["v"]))
+    ck.expect(nchain >= 1 and not direct, "R7", "ast::TypeName::from_syn/runtime-types-by-is_runtime_type", "%d chains" % nchain,
+              "runtime type(s) %s are recognised by comparing one path segment instead of is_runtime_type: the `diplomat_runtime::`-qualified spelling is taken for a user type "
+              "(for DiplomatWrite: the parameter is no write parameter any more, the generated function never flushes it)" % direct, C.loc(fs_))
+
     # --- R9 C++ std::string-backed writer (token rules on runtime.hpp.jinja; C++ text is not type-resolved)
     ck.rule("R9", "C++ writer adapter: _grow resizes to the requested size then publishes cap = length() and a fresh buf; _flush trims to len; WriteFromString starts with len = cap = length()")
     import c02
